@@ -526,6 +526,12 @@ def check_pair(ctx, rng, edit_name, old_d, new_d, expected, element, extra, dire
         if direction == "rev":
             ot, nt = nt, ot
         compat = in_compat(ot, nt) if pos == "in" else out_compat(ot, nt)
+        if not named and compat:
+            # the statement says EVERY elementary edit (retyping included) is reported with a change naming the element;
+            # the library documents that it ignores type changes it considers compatible (known finding G5)
+            fails.append(("safe-retype-not-reported:%sput" % pos,
+                          "%s position retyped %s -> %s (compatible) and no change names the element"
+                          % (pos, gs.ty_str(ot), gs.ty_str(nt))))
         if not named and not compat:
             fails.append(("unsafe-%sput-retype-not-breaking:%s" % (pos, divergence(ot, nt, pos)),
                           "%s position retyped %s -> %s, incompatible, but no breaking change names it"
@@ -647,6 +653,34 @@ def operations_stay_valid(ctx, rng, edit_name, old_d, new_d):
     return fails
 
 
+def same_response_shape_case(ctx):
+    """An output field made non-null (`Int` -> `Int!`) is classified safe and reported by nothing, yet an operation that
+    gives two fields of mutually exclusive types the same response key is valid on the old schema and violates
+    SameResponseShape on the new one (known finding G4, pinned by test_no_incompatible_changes)."""
+    from py_gql import build_schema
+    from py_gql.lang import parse
+    from py_gql.validation import validate_ast
+    fails = []
+    base = "type A { f: %s } type B { g: Int } union U = A | B type Query { u: U }"
+    op = "{ u { ... on A { x: f } ... on B { x: g } } }"
+    for old_t, new_t in (("Int", "Int!"), ("[Int]", "[Int]!"), ("[Int]", "[Int!]")):
+        try:
+            o, n = build_schema(base % old_t), build_schema(base % new_t)
+            breaking = [c for c in diff_live_unsorted(o, n) if c[1] >= BREAKING]
+            ok_old = not validate_ast(o, parse(op)).errors
+            errs_new = validate_ast(n, parse(op)).errors
+        except Exception as e:  # noqa
+            fails.append(("same-response-shape-case-raises:%s" % type(e).__name__, repr(e)))
+            continue
+        ctx.count()
+        ctx.stat("same-response-shape-case")
+        if ok_old and not breaking and errs_new:
+            fails.append(("nobreaking-but-operation-invalid:same-response-shape:%s->%s" % (old_t, new_t),
+                          "A.f: %s -> %s: no BREAKING change reported, but `%s` (valid before) now fails: %s"
+                          % (old_t, new_t, op, str(errs_new[0])[:120])))
+    return fails
+
+
 def shape(t):
     return "N" if t[0] == "named" else ("L(%s)" % shape(t[1]) if t[0] == "list" else "%s!" % shape(t[1]))
 
@@ -743,6 +777,8 @@ def _run(ctx):
     base = ctx.rng.randrange(1 << 30)
     # every kind of elementary edit is exercised in every run: at least `want` applicable cases per edit
     want = ctx.n(4, 25)
+    for sig, what in same_response_shape_case(ctx):
+        ctx.fail(sig, what, {"same_response_shape_case": True, "what": what})
     for e in EDITS:
         got = 0
         for j in range(want * 12):
@@ -1078,6 +1114,8 @@ def replay(ctx, data):
         return not code_enum_case(ctx, inp["code_enum_seed"])
     if "history_seed" in inp:
         return not history_case(ctx, inp["history_seed"])
+    if inp.get("same_response_shape_case"):
+        return not same_response_shape_case(ctx)
     if "schema_case_seed" in inp:
         fails = one_case(ctx, inp["schema_case_seed"], want=inp.get("edit"))
         return not fails
